@@ -1,9 +1,12 @@
 import MdkVerif.Model.Locks
 import MdkVerif.Proofs.Locks
 import MdkVerif.Proofs.LocksStore
+import MdkVerif.Proofs.LocksNested
+import MdkVerif.Proofs.LocksNestedStore
 /-
   C19 — Storage backends are safe to share between threads.
-  Property theorems only (helper lemmas live in Proofs/Locks.lean, Proofs/LocksStore.lean).
+  Property theorems only (helper lemmas live in Proofs/Locks.lean, Proofs/LocksStore.lean,
+  Proofs/LocksNested.lean, Proofs/LocksNestedStore.lean).
 
   Claimed PARTIAL.  The theorems are about the LOCK PROTOCOL the source exhibits
   (`Generated.lockShape`, re-extracted on every run): a lock section is atomic by assumption.
@@ -12,6 +15,15 @@ import MdkVerif.Proofs.LocksStore
 
   All theorems quantify over ANY thread pool (`ops : Nat → List _`, any number of threads), ANY
   schedule (`List Nat`) and ANY initial store.
+
+  The memory methods `create_group_snapshot` / `rollback_group_to_snapshot` use both memory locks.
+  `Generated.lockShape` says HOW (one section per lock acquisition, each naming the locks held in
+  acquisition order): as two SEPARATE sections (the source before the repair of finding
+  `mem-snapshot-two-locks`: NOT linearizable, §6 `two_sections_not_linearizable`) or as a NESTED
+  section, `group_snapshots` held across the `inner` section (the repaired source: linearizable at
+  the inner section, §6 `nested_section_atomic`, `mem_nested_linearizable`).  Both programs are
+  modelled (`memProgWith false / true`), every theorem is proved for the program it is about, and
+  `lockProg .mem` is the one the CURRENT table exhibits (`mem_snapshot_shape`).
 -/
 namespace MdkVerif.Props.C19
 open MdkVerif MdkVerif.Store MdkVerif.Locks
@@ -21,8 +33,18 @@ open MdkVerif MdkVerif.Store MdkVerif.Locks
 /-- every method's sections, as modelled, are (a prefix of) the lock sections extracted from the
     source for that method on that backend — number, lock and mode -/
 theorem lockProg_follows_shape (b : Backend) (op : Op) (m : Nat) (h : methodOf op = some m) :
-    ∃ l, shapeOf b m = some l ∧ (lockProg b op).follows l :=
+    ∃ l, shapeOf b m = some l ∧ (lockProg b op).follows [] l :=
   lockProg_follows_shape' b op m h
+
+/-- the two memory methods that use both locks have, in the CURRENT source, one of the two known
+    shapes — nested (`group_snapshots` held across the `inner` section) or two separate sections —
+    and `lockProg .mem` is the corresponding program -/
+theorem mem_snapshot_shape :
+    (shapeOf .mem 27 = some shapeNested.1 ∧ shapeOf .mem 28 = some shapeNested.2 ∧ lockProg .mem = memProgWith true) ∨
+    (shapeOf .mem 27 = some shapeTwoSections.1 ∧ shapeOf .mem 28 = some shapeTwoSections.2 ∧ lockProg .mem = memProgWith false) := by
+  rcases mem_snapshot_shape_cases with ⟨h27, h28⟩ | ⟨h27, h28⟩
+  · exact Or.inl ⟨h27, h28, by show memProgWith memSnapNested = _; rw [memSnapNested_of_nested h27 h28]⟩
+  · exact Or.inr ⟨h27, h28, by show memProgWith memSnapNested = _; rw [memSnapNested_of_two h27]⟩
 
 /-- run back to back, the sections of a method are the sequential store model's step -/
 theorem lockProg_sequential (b : Backend) (op : Op) (s : Store) (hb : s.backend = b) :
@@ -134,16 +156,16 @@ theorem sqlCta_fused_is_step (g e v : Nat) (s : Store) (hb : s.backend = .sql) :
     atomically, under every schedule (`store_single_section_atomic` applies to it) -/
 theorem mem_save_message_atomic (m : Msg) :
     lockProg .mem (.saveMessage m) = whole lkInnerW (.saveMessage m) ∧ singleOp .mem (.saveMessage m) = true ∧
-    shapeOf .mem 4 = some [lkInnerW] :=
+    shapeOf .mem 4 = some [[lkInnerW]] :=
   ⟨rfl, rfl, by rfl⟩
 
 /-- no memory-backend method in `Generated.lockShape` takes the `inner` lock twice (no
-    check-then-act is left on memory); the only two-section methods are the two that use BOTH locks
-    (`create_group_snapshot`, `rollback_group_to_snapshot`, see §3) -/
+    check-then-act is left on memory); the only methods with more than one lock acquisition are the
+    two that use BOTH locks (`create_group_snapshot`, `rollback_group_to_snapshot`, see §3, §6) -/
 theorem mem_no_check_then_act :
     (Generated.lockShape.filter (fun e => e.1 == 0 && e.2.2.2.1.length > 1)).map (·.2.1) = [27, 28] ∧
     (Generated.lockShape.filter (fun e => e.1 == 0)).all
-      (fun e => (e.2.2.2.1.filter (fun l => l.1 == 0)).length ≤ 1) = true := by
+      (fun e => (e.2.2.2.1.filter (fun st => st.getLast?.map (·.1) == some 0)).length ≤ 1) = true := by
   decide
 
 /-! #### the side condition of `check_then_act_reduces` cannot be dropped
@@ -205,18 +227,46 @@ example : sqlCta.stable (init sqlProg
     simp [init, h0, h1, h2]
   · decide
 
-/-! ### 3. snapshots are taken and restored at one instant -/
+/-! #### a store with one group and one snapshot of it, for the witnesses below -/
 
-/-- memory `create_group_snapshot`: the first section (under `inner.read`) does not write, and the
-    snapshot that the second section stores — in WHATEVER state `s2` the store is by then — is the
-    group's state `takeSnap s1` at the single instant `s1` of the first section; then the method is done -/
+def raceStore : Store :=
+  { Store.empty .mem with
+    groups := [{ gid := 1, nid := 11, nameLen := 1, descLen := 0, admins := 0, img := 0, lastId := none,
+                 lastAt := none, lastProc := none, epoch := 0, state := 0, selfUpd := 0 }],
+    snaps := [{ name := 2, gid := 1, createdAt := 5000, group := none, relays := [], secrets := [], mls := [] }] }
+
+/-! ### 3. snapshots are taken and restored at one instant
+
+  Stated for BOTH shapes of the two memory methods (`memProgWith false`: two separate sections;
+  `memProgWith true`: nested); `mem_snapshot_shape` says which one `lockProg .mem` is. -/
+
+/-- memory `create_group_snapshot`, two separate sections: the first section (under `inner.read`)
+    does not write, and the snapshot that the second section stores — in WHATEVER state `s2` the store
+    is by then — is the group's state `takeSnap s1` at the single instant `s1` of the first section;
+    then the method is done -/
 theorem snapshot_instant_create_mem (g n ts : Nat) (s1 s2 : Store) :
-    let P := lockProg .mem (.snapCreate g n ts)
+    let P := memProgWith false (.snapCreate g n ts)
     P.effect s1 = s1 ∧
     findSnap ((P.cont s1).effect s2) g n = some (takeSnap s1 g n ts) ∧
     (P.cont s1).cont s2 = .done "ok" := by
   intro P
   refine ⟨?_, ?_, ?_⟩
+  · rfl
+  · exact findSnap_drop_append s2.snaps (takeSnap s1 g n ts)
+  · rfl
+
+/-- memory `create_group_snapshot`, nested: taking `group_snapshots.write` (state `s0`) writes
+    nothing; the inner section (under `inner.read`, state `s1`) writes nothing; and the snapshot that
+    the last step stores — in WHATEVER state `s2` the store is by then — is the group's state
+    `takeSnap s1` at the single instant `s1` of the inner section; then the method is done -/
+theorem snapshot_instant_create_mem_nested (g n ts : Nat) (s0 s1 s2 : Store) :
+    let P := memProgWith true (.snapCreate g n ts)
+    P.effect s0 = s0 ∧ (P.cont s0).effect s1 = s1 ∧
+    findSnap (((P.cont s0).cont s1).effect s2) g n = some (takeSnap s1 g n ts) ∧
+    ((P.cont s0).cont s1).cont s2 = .done "ok" := by
+  intro P
+  refine ⟨?_, ?_, ?_, ?_⟩
+  · rfl
   · rfl
   · exact findSnap_drop_append s2.snaps (takeSnap s1 g n ts)
   · rfl
@@ -227,20 +277,20 @@ theorem snapshot_instant_sql (g n ts : Nat) :
     (lockProg .sql (.snapCreate g n ts)).single ∧ (lockProg .sql (.snapRollback g n)).single :=
   ⟨single_atomic _ _, single_atomic _ _⟩
 
-/-- memory `rollback_group_to_snapshot`: given the snapshot `p` the first section removed from the
-    snapshot map, the second section — in whatever state `s2` — writes the group's OpenMLS rows,
-    exporter secrets and record in ONE section, after which they are exactly the snapshot's; the
-    snapshot map is not touched by that section; then the method is done -/
+/-- memory `rollback_group_to_snapshot`, two separate sections: given the snapshot `p` the first
+    section removed from the snapshot map, the second section — in whatever state `s2` — writes the
+    group's OpenMLS rows, exporter secrets and record in ONE section, after which they are exactly the
+    snapshot's; the snapshot map is not touched by that section; then the method is done -/
 theorem snapshot_instant_restore_mem (g n : Nat) (s1 s2 : Store) (p : Snap) (hb : s2.backend = .mem)
     (hp : findSnap s1 g n = some p) :
-    let P := lockProg .mem (.snapRollback g n)
+    let P := memProgWith false (.snapRollback g n)
     let s3 := (P.cont s1).effect s2
     groupMls s3 g = p.mls ∧ groupSecrets s3 g = p.secrets ∧ s3.snaps = s2.snaps ∧
     (P.cont s1).cont s2 = .done "ok" := by
   intro P s3
   obtain ⟨hg, hn⟩ := findSnap_key s1 g n p hp
   subst hg
-  simp only [P, s3, lockProg, memProg, Prog.cont, hp, Prog.atomic, Prog.effect]
+  simp only [P, s3, memProgWith, Bool.false_eq_true, if_false, Prog.cont, hp, Prog.atomic, Prog.effect]
   refine ⟨?_, ?_, ?_, trivial⟩
   · simp only [restoreInner, restoreFrom, hb, groupMls]
     exact filter_map_restore p.gid s2.mls p.mls
@@ -248,23 +298,287 @@ theorem snapshot_instant_restore_mem (g n : Nat) (s1 s2 : Store) (p : Snap) (hb 
     exact filter_map_restore p.gid s2.secrets p.secrets
   · simp [restoreInner, restoreFrom, hb]
 
-/-! ### 4. no nested lock acquisition ⇒ no deadlock -/
+/-- memory `rollback_group_to_snapshot`, nested: the same for the inner section, which now runs
+    with `group_snapshots.write` still held; the last step (dropping the guards) changes nothing -/
+theorem snapshot_instant_restore_mem_nested (g n : Nat) (s1 s2 s4 : Store) (p : Snap) (hb : s2.backend = .mem)
+    (hp : findSnap s1 g n = some p) :
+    let P := memProgWith true (.snapRollback g n)
+    let s3 := (P.cont s1).effect s2
+    groupMls s3 g = p.mls ∧ groupSecrets s3 g = p.secrets ∧ s3.snaps = s2.snaps ∧
+    ((P.cont s1).cont s2).effect s4 = s4 ∧ ((P.cont s1).cont s2).cont s4 = .done "ok" := by
+  intro P s3
+  obtain ⟨hg, hn⟩ := findSnap_key s1 g n p hp
+  subst hg
+  have hl : lookSnap s1.snaps p.gid n = some p := hp
+  simp only [P, s3, memProgWith, if_true, NestOps.nested, NestOps.inner, NestOps.tail, Prog.cont, Prog.effect,
+    memNest, snapsLens, hl]
+  refine ⟨?_, ?_, ?_, trivial, trivial⟩
+  · simp only [restoreInner, restoreFrom, hb, groupMls]
+    exact filter_map_restore p.gid s2.mls p.mls
+  · simp only [restoreInner, restoreFrom, hb, groupSecrets]
+    exact filter_map_restore p.gid s2.secrets p.secrets
+  · simp [restoreInner, restoreFrom, hb]
 
-/-- No storage-trait method of either backend (85 + 85 methods, `Generated.lockShape`) acquires a
-    lock while holding another.  Hence every thread is, at any moment, idle, waiting for one lock
-    while holding none, or holding exactly one lock (`Phase`), and in every such lock state the
-    wait-for relation has no cycle (not even a path of length two). -/
+/-! ### 4. locks are taken in one fixed order ⇒ no deadlock -/
+
+/-- GENERATED FACT + theorem.  Every section of every storage method of both backends (88 + 88
+    entries of `Generated.lockShape`) takes its locks in strictly increasing `lockRank`
+    (`group_snapshots` before `inner`; no lock twice, so no method re-enters a lock it holds; the
+    sqlite connection never together with another lock).  Hence, for ANY number of threads running
+    ANY lists of storage operations under ANY schedule, in every configuration reached: if some
+    thread has not finished, some unfinished thread's next step is ENABLED (the lock it acquires
+    conflicts with no lock held by anybody) — no deadlock. -/
+theorem ordered_locks_deadlock_free :
+    Generated.lockShape.all (fun e => e.2.2.2.1.all (stackOrdered lockRank 0)) = true ∧
+    ∀ (b : Backend) (ops : Nat → List Op) (s0 : Store) (sched : List Nat),
+      let c := exec (init (lockProg b) ops s0) sched
+      ∀ t, c.thr t ≠ [] → ∃ u, c.thr u ≠ [] ∧ enabled c u := by
+  refine ⟨lock_order_table, ?_⟩
+  intro b ops s0 sched c t ht
+  exact ordered_progress lockRank 3 lockRank_lt c
+    (ordInv_exec lockRank sched _ (ordInv_init lockRank (lockProg b) (lockProg_ordered b) ops s0)) t ht
+
+/-- the general theorem, for any operations whose programs acquire locks in the order of a bounded
+    rank function -/
+theorem ordered_deadlock_free {ι σ ρ : Type} (rank : Nat → Nat) (N : Nat) (hN : ∀ i, rank i < N)
+    (prog : ι → Prog σ ρ) (hord : ∀ i, (prog i).ordered rank 0) (ops : Nat → List ι) (s0 : σ) (sched : List Nat) :
+    let c := exec (init prog ops s0) sched
+    ∀ t, c.thr t ≠ [] → ∃ u, c.thr u ≠ [] ∧ enabled c u := by
+  intro c t ht
+  exact ordered_progress rank N hN c (ordInv_exec rank sched _ (ordInv_init rank prog hord ops s0)) t ht
+
+/-- a program that follows a shape whose sections are rank-increasing acquires in that order (how
+    the generated table is carried over to `lockProg`) -/
+theorem ordered_of_shape {σ ρ : Type} (rank : Nat → Nat) (p : Prog σ ρ) (l : List (List Lock)) (hf : p.follows [] l)
+    (hs : ∀ st, st ∈ l → stackOrdered rank 0 st = true) : p.ordered rank 0 :=
+  ordered_of_follows rank p [] l hf hs
+
+/-- the same at the level of lock states: when every thread requests a lock only above (in `rank`)
+    every lock it holds, the wait-for relation has no cycle -/
+theorem ordered_lock_states_no_wait_cycle (L : LockState) (rank : Nat → Nat) (h : L.orderedBy rank) (a : Nat) (path : List Nat) :
+    ¬ L.chain (a :: path ++ [a]) := ordered_no_wait_cycle L rank h a path
+
+/-- THE SPECIAL CASE of un-nested methods.  No storage-trait method of either backend other than the
+    two memory snapshot methods (27, 28) acquires a lock while holding another (and those two do so
+    only in the repaired source).  A thread running un-nested methods is, at any moment, idle,
+    waiting for one lock while holding none, or holding exactly one lock (`Phase`), and in every such
+    lock state the wait-for relation has no cycle (not even a path of length two). -/
 theorem no_nested_locks_deadlock_free :
-    Generated.lockShape.all (fun e => !e.2.2.2.2) = true ∧
+    Generated.lockShape.all (fun e => !e.2.2.2.2 || (e.1 == 0 && (e.2.1 == 27 || e.2.1 == 28))) = true ∧
     ∀ (ph : Nat → Phase) (a : Nat) (path : List Nat), ¬ (LockState.ofPhases ph).chain (a :: path ++ [a]) :=
   ⟨by decide, fun ph a path => no_wait_cycle _ (ofPhases_noNested ph) a path⟩
 
-/-- the general lemma, for any lock state obeying the protocol -/
+/-- the general lemma, for any lock state obeying the no-nesting protocol — an instance of the
+    ordered protocol (whoever waits holds nothing) -/
 theorem no_nesting_no_wait_cycle (L : LockState) (h : L.noNested) (a : Nat) (path : List Nat) :
-    ¬ L.chain (a :: path ++ [a]) := no_wait_cycle L h a path
+    ¬ L.chain (a :: path ++ [a]) :=
+  ordered_no_wait_cycle L (fun i => i) (orderedBy_of_noNested L _ h) a path
 
 example : (LockState.ofPhases (fun t => if t = 0 then .holding 0 else if t = 1 then .waiting 0 else .idle)).waitsFor 1 0 :=
   ⟨0, rfl, by simp [LockState.ofPhases]⟩
+
+/-- non-vacuity of `enabled`: while thread 0 is inside the nested rollback (it holds
+    `group_snapshots.write`), thread 1's `release_group_snapshot` is NOT enabled, its OpenMLS write is -/
+example :
+    let c := step (init (memProgWith true) (fun t => if t = 0 then [Op.snapRollback 1 2] else if t = 1 then [.snapRelease 1 2] else
+      if t = 2 then [.mlsWrite 1 0 15] else []) raceStore) 0
+    enabledB c 1 [0, 1, 2] = false ∧ enabledB c 2 [0, 1, 2] = true := by
+  decide
+
+/-! ### 6. nested sections: an outer lock held across an inner section
+
+  What the repaired memory `rollback_group_to_snapshot` / `create_group_snapshot` do (`NestOps.nested`):
+    step 1  take the OUTER lock `(S, exclusive)` and run `pre` on the part of the state it protects
+            (rollback: remove the snapshot from the map; create: nothing) — the lock stays held;
+            rollback returns here when the snapshot is not there (`early`);
+    step 2  take the INNER lock and run `mid` (rollback: restore the group from the removed snapshot;
+            create: read the group), release the inner lock;
+    step 3  run `post` on the protected part (create: insert the capture made at step 2; rollback:
+            nothing), release the outer lock.
+  Other threads may run between the steps, but only steps the locks allow (`respects`): while the
+  outer lock is held nobody else takes it. -/
+
+/-- A nested operation is equivalent to ONE atomic step (`NestOps.fuse`: all three steps in one
+    section) placed where its INNER section ran, with respect to all other operations `prog` offers,
+    provided (`K.good`) each of those is made of un-nested sections every one of which either takes
+    the outer lock (then it is excluded for the whole nested section) or neither reads nor writes the
+    protected part (`K.indep`: commutes with every change of it, its continuation does not depend on
+    it, leaves it unchanged).  For every thread pool, every initial state and every schedule that
+    respects the locks: when no thread is inside a nested section at the end, the final state is
+    that of the run of the fused operations under `K.reduce sched` (the schedule without the steps 1
+    and 3), every thread has obtained the same results in the same order, and the same work is
+    pending.  At ANY moment every thread's results so far are a prefix of its results in that run. -/
+theorem nested_section_atomic {ι σ ρ β : Type} (K : NestOps ι σ ρ β) (prog : ι → Prog σ ρ)
+    (hK : K.describes prog) (ops : Nat → List ι)
+    (hgood : ∀ t i, i ∈ ops t → K.is i = false → K.good (prog i))
+    (s0 : σ) (sched : List Nat) (hr : respects (init prog ops s0) sched) :
+    let c := exec (init prog ops s0) sched
+    let a := exec (init (K.fuse prog) ops s0) (K.reduce (init prog ops s0) sched)
+    ((∀ u, c.holds u = []) →
+      c.st = a.st ∧ (∀ u, logOf c.log u = logOf a.log u) ∧ ∀ u, (c.thr u).map (·.op) = (a.thr u).map (·.op)) ∧
+    ∀ u, ∃ d, logOf a.log u = logOf c.log u ++ d := by
+  intro c a
+  have h := nrel_exec K prog sched _ _ (nrel_init K prog hK ops hgood s0) hr
+  exact ⟨fun hq => nrel_quiescent K prog h hq, fun u => nrel_log_prefix K prog h u⟩
+
+/-- run back to back, the three steps are the fused operation -/
+theorem nested_run_is_fused {ι σ ρ β : Type} (K : NestOps ι σ ρ β) (i : ι) (s : σ) :
+    (K.nested i).run s = K.eff i s := run_nested K i s
+
+/-- the repaired memory backend is an instance: `memProgWith true` runs `create_group_snapshot` and
+    `rollback_group_to_snapshot` as the nested operations `memNest` (outer lock `group_snapshots`,
+    protected part = the snapshot map), and every other storage method is un-nested and either takes
+    `group_snapshots` (`release_group_snapshot`, `list_group_snapshots`, `prune_expired_snapshots`) or
+    neither reads nor writes the snapshot map (all methods under `inner`, incl. the OpenMLS rows) -/
+theorem mem_nested_instance :
+    memNest.describes (memProgWith true) ∧
+    ∀ op, op ≠ .dump → memNest.is op = false → memNest.good (memProgWith true op) :=
+  ⟨memNest_describes, memProgN_good⟩
+
+/-- GENERATED FACT.  Every memory-backend method of the table other than the two nested snapshot
+    methods (27, 28) — the 30 other MDK trait methods and all 56 OpenMLS `StorageProvider` methods —
+    is made of sections holding exactly ONE lock: `group_snapshots` for `release_group_snapshot`,
+    `list_group_snapshots`, `prune_expired_snapshots` (29, 30, 31: excluded while a nested section
+    holds that lock), `inner` for everything else (the methods `mem_nested_instance` shows
+    independent of the snapshot map: in the model the OpenMLS methods are the rows written / read /
+    deleted by `mlsWrite` / `mlsRead` / `mlsDelete`) -/
+theorem mem_methods_lock_partition :
+    (Generated.lockShape.filter (fun e => e.1 == 0 && !(e.2.1 == 27 || e.2.1 == 28))).all
+      (fun e => e.2.2.2.1.all (fun st =>
+        st.length == 1 && st.all (fun l => l.1 == (if e.2.1 == 29 || e.2.1 == 30 || e.2.1 == 31 then 1 else 0)))) = true := by
+  decide
+/-- the fused snapshot operations are ONE section each and ARE the sequential model's operations -/
+theorem mem_fused_is_step (op : Op) (s : Store) (hb : s.backend = .mem) :
+    (memNest.fuse (memProgWith true) op).run s = Store.step s op := memN_fuse_run op s hb
+
+/-- Hence the repaired memory backend is LINEARIZABLE for all storage-trait methods including the
+    snapshot methods: for every thread pool of storage methods, every memory store and every schedule
+    that respects the locks, when no thread is inside a nested section at the end there is ONE
+    sequential order `lin` of the completed calls (each nested call placed where its inner section
+    ran) whose sequential execution on the store model yields exactly the final state and the
+    results, and in which every thread's calls appear with the results that thread obtained, in its
+    program order. -/
+theorem mem_nested_linearizable (ops : Nat → List Op) (hops : ∀ t op, op ∈ ops t → methodOf op ≠ none)
+    (s0 : Store) (hb : s0.backend = .mem) (sched : List Nat)
+    (hr : respects (init (memProgWith true) ops s0) sched) :
+    let c := exec (init (memProgWith true) ops s0) sched
+    (∀ u, c.holds u = []) →
+    ∃ lin : List (Nat × Op × String),
+      seqRun (fun op => whole lkInnerW op) (lin.map (·.2.1)) s0 = (c.st, lin.map (·.2.2)) ∧
+      ∀ u, logOf c.log u = logOf lin u := by
+  intro c hq
+  have hnd : ∀ t op, op ∈ ops t → op ≠ .dump := by
+    intro t op hm e; subst e; exact hops t _ hm rfl
+  have h := nested_section_atomic memNest (memProgWith true) memNest_describes ops
+    (fun t op hm hno => memProgN_good op (hnd t op hm) hno) s0 sched hr
+  obtain ⟨hst, hlog, _⟩ := h.1 hq
+  refine ⟨(exec (init (memNest.fuse (memProgWith true)) ops s0) (memNest.reduce (init (memProgWith true) ops s0) sched)).log, ?_, hlog⟩
+  have hs := single_section_atomic (memNest.fuse (memProgWith true)) ops (fun t op hm => by
+    apply memN_fuse_single
+    have := hops t op hm
+    cases op <;> first | (left; rfl) | (right; rfl) | exact absurd rfl this) s0
+    (memNest.reduce (init (memProgWith true) ops s0) sched)
+  simp only at hs
+  rw [memN_fuse_seqRun _ _ hb] at hs
+  rw [hs]
+  show (_, _) = (c.st, _)
+  rw [hst]
+
+/-- the same for the CURRENT source whenever its shape table shows the nested form -/
+theorem mem_linearizable_of_nested_shape (h : memSnapNested = true)
+    (ops : Nat → List Op) (hops : ∀ t op, op ∈ ops t → methodOf op ≠ none)
+    (s0 : Store) (hb : s0.backend = .mem) (sched : List Nat)
+    (hr : respects (init (lockProg .mem) ops s0) sched) :
+    let c := exec (init (lockProg .mem) ops s0) sched
+    (∀ u, c.holds u = []) →
+    ∃ lin : List (Nat × Op × String),
+      seqRun (fun op => whole lkInnerW op) (lin.map (·.2.1)) s0 = (c.st, lin.map (·.2.2)) ∧
+      ∀ u, logOf c.log u = logOf lin u := by
+  have e : lockProg .mem = memProgWith true := by show memProgWith memSnapNested = _; rw [h]
+  rw [e] at hr ⊢
+  exact mem_nested_linearizable ops hops s0 hb sched hr
+
+/-- non-vacuity: thread 0 rolls group 1 back to its snapshot while thread 1 writes an OpenMLS row of
+    the group BETWEEN step 1 and the inner section, then releases the snapshot — the schedule respects
+    the locks, and at its end nobody holds a lock -/
+def nestOps : Nat → List Op :=
+  fun t => if t = 0 then [.snapRollback 1 2] else if t = 1 then [.mlsWrite 1 0 15, .snapRelease 1 2] else []
+
+example : respects (init (memProgWith true) nestOps raceStore) [0, 1, 0, 0, 1] ∧
+    (∀ u, (exec (init (memProgWith true) nestOps raceStore) [0, 1, 0, 0, 1]).holds u = []) ∧
+    (∀ t op, op ∈ nestOps t → methodOf op ≠ none) := by
+  have hidle : ∀ u, u ∉ [0, 1] → nestOps u = [] := by
+    intro u hu
+    have h0 : u ≠ 0 := fun e => hu (by simp [e])
+    have h1 : u ≠ 1 := fun e => hu (by simp [e])
+    simp [nestOps, h0, h1]
+  refine ⟨?_, ?_, ?_⟩
+  · exact respects_of_respectsB [0, 1] _ _ (init_idle _ _ _ _ hidle) (by decide)
+  · exact quiescent_of_quiescentB _ [0, 1] (exec_keeps_idle _ _ _ (init_idle _ _ _ _ hidle)) (by decide)
+  · intro t op hm
+    by_cases h0 : t = 0
+    · subst h0; simp [nestOps] at hm; subst hm; simp [methodOf]
+    · by_cases h1 : t = 1
+      · subst h1; simp [nestOps] at hm; rcases hm with e | e <;> subst e <;> simp [methodOf]
+      · simp [nestOps, h0, h1] at hm
+
+/-! #### the two-section shape is NOT linearizable (regression witness of finding `mem-snapshot-two-locks`)
+
+  With two SEPARATE sections (`memProgWith false`, the source before the repair) thread 0's rollback
+  removes the snapshot (section 1), thread 1 releases the same snapshot (answered ok) and writes an
+  OpenMLS row of the group (answered ok), and then thread 0's restore (section 2) overwrites the
+  write.  Every call is answered ok, yet in EVERY sequential order of the three calls that keeps
+  thread 1's program order the row written last is still there at the end. -/
+
+def raceOps : Nat → List Op
+  | 0 => [.snapRollback 1 2]
+  | 1 => [.snapRelease 1 2, .mlsWrite 1 0 15]
+  | _ => []
+
+/-- all ways to place one call among the calls of another thread (kept in their order) -/
+def insertions {α : Type} (x : α) : List α → List (List α)
+  | [] => [[x]]
+  | y :: ys => (x :: y :: ys) :: (insertions x ys).map (y :: ·)
+
+/-- the full-strength statement for a program `P` of the memory methods on this pool: whatever the
+    schedule, SOME sequential order of the calls (thread 1's in program order) ends with the same
+    OpenMLS rows as the concurrent run — kept visible; FALSE for the two-section shape -/
+def C19_mem_snapshot_full (P : Op → Prog Store String) : Prop :=
+  ∀ sched : List Nat,
+    let c := exec (init P raceOps raceStore) sched
+    (c.thr 0).isEmpty = true → (c.thr 1).isEmpty = true →
+    ∃ order, order ∈ insertions (Op.snapRollback 1 2) (raceOps 1) ∧
+      (seqRun (fun op => whole lkInnerW op) order raceStore).1.mls = c.st.mls
+
+theorem two_sections_not_linearizable : ¬ C19_mem_snapshot_full (memProgWith false) := by
+  intro h
+  have := h [0, 1, 1, 0]
+  revert this
+  decide
+
+/-- what the witness schedule produces: all three calls completed and answered ok, the snapshot is
+    consumed, and the row written by the last call is GONE -/
+theorem two_sections_witness :
+    let c := exec (init (memProgWith false) raceOps raceStore) [0, 1, 1, 0]
+    c.log.map (·.1) = [1, 1, 0] ∧ c.log.map (·.2.2) = ["ok", "ok", "ok"] ∧ c.st.mls = [] ∧ c.st.snaps.length = 0 ∧
+    ∀ order, order ∈ insertions (Op.snapRollback 1 2) (raceOps 1) →
+      (seqRun (fun op => whole lkInnerW op) order raceStore).1.mls = [(1, 0, 15)] := by
+  decide
+
+/-- the SAME schedule is not allowed by the locks of the nested shape: thread 1's
+    `release_group_snapshot` needs `group_snapshots`, which thread 0 holds until its restore is done -/
+theorem nested_excludes_witness_schedule : ¬ respects (init (memProgWith true) raceOps raceStore) [0, 1, 1, 0] := by
+  intro h
+  have h2 := h.2.1 _ _ rfl (1, 1) rfl 0 (1, 1) (by decide)
+  revert h2
+  decide
+
+/-- … and for the CURRENT source: if its shape table shows two separate sections, the full statement
+    is false of `lockProg .mem` (this is finding `mem-snapshot-two-locks`); if it shows the nested form, the same
+    schedule is not allowed and `mem_linearizable_of_nested_shape` applies -/
+theorem current_two_sections_not_linearizable (h : memSnapNested = false) : ¬ C19_mem_snapshot_full (lockProg .mem) := by
+  have e : lockProg .mem = memProgWith false := by show memProgWith memSnapNested = _; rw [h]
+  rw [e]; exact two_sections_not_linearizable
 
 /-! ### 5. frame: an operation on group g leaves every other group's projection alone -/
 
